@@ -146,3 +146,19 @@ func (m *MapOf[K, V]) VerifResizing() bool { return atomic.LoadInt64(&m.resizing
 
 // VerifDefaultHasher exposes defaultHasher.
 func VerifDefaultHasher[K comparable]() func(K, uint64) uint64 { return defaultHasher[K]() }
+
+// VerifAddrs returns the addresses of the control words (for trace classification).
+func (m *Map) VerifAddrs() (table, resizing, mu unsafe.Pointer) {
+	return unsafe.Pointer(&m.table), unsafe.Pointer(&m.resizing), unsafe.Pointer(&m.resizeMu)
+}
+func (m *MapOf[K, V]) VerifAddrs() (table, resizing, mu unsafe.Pointer) {
+	return unsafe.Pointer(&m.table), unsafe.Pointer(&m.resizing), unsafe.Pointer(&m.resizeMu)
+}
+
+// VerifGrowthAddrs returns the addresses of the statistics counters (dropped from traces).
+func (m *Map) VerifGrowthAddrs() (g, s unsafe.Pointer) {
+	return unsafe.Pointer(&m.totalGrowths), unsafe.Pointer(&m.totalShrinks)
+}
+func (m *MapOf[K, V]) VerifGrowthAddrs() (g, s unsafe.Pointer) {
+	return unsafe.Pointer(&m.totalGrowths), unsafe.Pointer(&m.totalShrinks)
+}
